@@ -180,6 +180,39 @@ Qed.
 
 Definition all_sql (d : list file) : bool := forallb (fun f => is_sql (fst f)) d.
 
+(** declarative reading of the two decidable name predicates *)
+Lemma split_at_sql_complete p l : split_at_sql (p ++ s_sql ++ l) <> None.
+Proof.
+  induction p as [|c p IH].
+  - change ([] ++ s_sql ++ l) with (s_sql ++ l).
+    rewrite (split_at_sql_app s_sql l s_sql [] eq_refl). discriminate.
+  - rewrite <- app_comm_cons, split_at_sql_cons.
+    destruct (starts_with s_sql (c :: p ++ s_sql ++ l)); [discriminate|].
+    destruct (split_at_sql (p ++ s_sql ++ l)) as [[a b]|]; [discriminate|congruence].
+Qed.
+
+Lemma name_wf_spec n :
+  name_wf n = true <->
+  (exists p, n = p ++ s_sql) /\ (forall a b, n = a ++ s_sql ++ b -> b = []).
+Proof.
+  split.
+  - intros W. split; [exact (name_wf_ends n W)|]. intros a b E. exact (name_wf_no_inner n a b W E).
+  - intros [[p E] U]. unfold name_wf.
+    destruct (split_at_sql n) as [[a b]|] eqn:S.
+    + destruct (split_at_sql_sound _ _ _ S) as [S1 _].
+      destruct (split_at_sql_ends _ _ _ S) as [a0 A]. rewrite A, <- app_assoc in S1.
+      rewrite (U _ _ S1). reflexivity.
+    + exfalso. rewrite E in S. rewrite <- (app_nil_r s_sql) in S.
+      exact (split_at_sql_complete p [] S).
+Qed.
+
+Lemma all_sql_spec d : all_sql d = true <-> forall f, In f d -> exists p, fst f = p ++ s_sql.
+Proof.
+  unfold all_sql. rewrite forallb_forall. split; intros H f F.
+  - apply is_sql_ends. apply H; exact F.
+  - destruct (H f F) as [p E]. unfold is_sql, ends_with. rewrite E, rev_app_distr. apply starts_with_app.
+Qed.
+
 Section Hash.
 Variable HS : bytes -> bytes.
 Hypothesis HS_shape : forall x, hash_ok (HS x).
